@@ -96,7 +96,8 @@ Post(s, u, c) ==
          \* (docs: "Be sure to configure auto_ack for data pipe 0 before calling open_tx_pipe()"); in TX mode it must also
          \* be open so that the ACK is received (C08.TxAck).
          IF Bit(s.aa, 0) = 1
-         THEN [s EXCEPT !.txa = Overlay(s.txa, c.v), !.p0 = Overlay(s.p0, c.v),
+         \* (a short address alters the low bytes of TX_ADDR; pipe 0 gets the WHOLE resulting TX address, else no ACK matches)
+         THEN [s EXCEPT !.txa = Overlay(s.txa, c.v), !.p0 = Overlay(s.txa, c.v),
                         !.en = IF InTx(s) THEN SetBit(s.en, 0, TRUE) ELSE s.en]
          ELSE [s EXCEPT !.txa = Overlay(s.txa, c.v)]
     [] c.op = "listen=" ->
